@@ -110,7 +110,7 @@ func (c *Ctx) analyseBuf(rule string, fn *ssa.Function, pi int, regionIn region,
 					}
 				}
 			case *ssa.Slice:
-				if reg[x.X] == rPrefix && x.High != nil && regionIn == rPrefix {
+				if reg[x.X] == rPrefix && x.High != nil && regionIn == rPrefix && !(isLenOfBuf(x.High, fn.Params[pi]) && x.X == ssa.Value(fn.Params[pi])) { // buf[:len(buf)] keeps every byte
 					c.add("violated", rule, fn, x.Pos(), "truncating re-slice of the caller's buffer")
 				}
 			case *ssa.Call:
@@ -159,6 +159,8 @@ func (c *Ctx) analyseBuf(rule string, fn *ssa.Function, pi int, regionIn region,
 						}
 						if regionIn == rPrefix && depth == 0 && reg[r] != rPrefix {
 							c.add("violated", rule, fn, x.Pos(), "returned slice is not derived from buf by append-only operations (caller's bytes lost)")
+						} else if regionIn == rPrefix && depth == 0 && dropsLeading(r, 0) {
+							c.add("violated", rule, fn, x.Pos(), "the returned slice starts behind the beginning of the caller's buffer (x[k:] with k > 0): the caller's leading bytes are lost")
 						}
 					}
 				}
@@ -282,12 +284,61 @@ func (c *Ctx) RuleAppendOnly(fns ...*ssa.Function) {
 func (c *Ctx) RuleInputReadOnly(fns ...*ssa.Function) {
 	for _, fn := range fns {
 		before := len(c.Out)
-		// treat the input as a "suffix" region is wrong; we want any element store flagged: use rPrefix semantics without the return rule
-		c.inputRO(fn, 0, 0, map[*ssa.Function]bool{})
+		// the input is the first byte-sequence parameter (for a method: not the receiver)
+		pi := -1
+		for i, p := range fn.Params {
+			if fn.Signature.Recv() != nil && i == 0 {
+				continue
+			}
+			switch t := p.Type().Underlying().(type) {
+			case *types.Slice, *types.Interface:
+				pi = i
+			case *types.Basic:
+				if t.Info()&types.IsString != 0 {
+					pi = i
+				}
+			}
+			if _, isTP := p.Type().(*types.TypeParam); isTP {
+				pi = i
+			}
+			if pi >= 0 {
+				break
+			}
+		}
+		if pi < 0 {
+			c.add("undecided", "C17.ro", fn, fn.Pos(), "no byte-sequence parameter found")
+			continue
+		}
+		c.inputRO(fn, pi, 0, map[*ssa.Function]bool{})
 		if len(c.Out) == before {
 			c.add("discharged", "C17.ro", fn, fn.Pos(), "no write through an alias of the input")
 		}
 	}
+}
+
+// dropsLeading: v is (a merge or conversion of) a re-slice x[lo:] whose lower bound is present and not the constant 0.
+func dropsLeading(v ssa.Value, depth int) bool {
+	if depth > 4 {
+		return false
+	}
+	switch x := v.(type) {
+	case *ssa.Slice:
+		if x.Low != nil {
+			if k, ok := constInt(x.Low); !ok || k != 0 {
+				return true
+			}
+		}
+		return dropsLeading(x.X, depth+1)
+	case *ssa.Phi:
+		for _, e := range x.Edges {
+			if dropsLeading(e, depth+1) {
+				return true
+			}
+		}
+	case *ssa.ChangeType:
+		return dropsLeading(x.X, depth+1)
+	}
+	return false
 }
 
 // RuleFieldReadOnly: the methods of a type that keeps the parser's input in a field (the typed parse errors) only
